@@ -1,3 +1,3 @@
 From Coq Require Import ExtrOcamlBasic ExtrOcamlString.
-From FoVerif Require Import Core.Unify Core.Infer.
-Extraction "x_c02.ml" infer_fun infer_ambiguous infer_open_named sig_to_go.
+From FoVerif Require Import Core.Unify Core.Infer Core.Resolver.
+Extraction "x_c02.ml" infer_fun infer_ambiguous infer_open_named sig_to_go infer_fun_resolver solve resolve_type unify app_seq.
